@@ -28,3 +28,6 @@ package mgr
 
 //@ type Manager
 //@   invariant context [C13]: nonnil(self.ctx)
+
+//@ type WorkerCtx
+//@   invariant context [C13]: nonnil(self.ctx)
